@@ -186,6 +186,21 @@ func computeDependenciesAndInclusion(funcs []*provider, initF *provider) ([]*pro
 			if fm.d.clusterMembers != nil {
 				tryWithout(fm.d.clusterMembers...)
 			}
+		} else if fm.isSynthetic && !fm.shun {
+			// The Debugging provider: asking for *Debugging must not change
+			// what else is included, so it is dropped only when none of the
+			// providers that ask for it remains.
+			var users []*provider
+			for _, user := range fm.d.usedBy {
+				if !user.wanted && user.d.excluded == nil {
+					user.wanted = true
+					users = append(users, user)
+				}
+			}
+			tryWithout(fm)
+			for _, user := range users {
+				user.wanted = false
+			}
 		} else {
 			tryWithout(fm)
 		}
@@ -546,10 +561,19 @@ func proposeEliminations(funcs []*provider) []*provider {
 			proposal = append(proposal, fm)
 		}
 	}
+	// The Debugging provider is considered last: excluding it also excludes
+	// every provider that asks for *Debugging, and that must not pre-empt the
+	// decisions about the other providers.
+	var synthetic []*provider
 	for i, fm := range funcs {
 		if !kept[i] && !fm.shun {
+			if fm.isSynthetic {
+				synthetic = append(synthetic, fm)
+				continue
+			}
 			proposal = append(proposal, fm)
 		}
 	}
+	proposal = append(proposal, synthetic...)
 	return proposal
 }
